@@ -80,7 +80,7 @@ func c19VerifySTH(sv ct.SignatureVerifier, sth ct.SignedTreeHead) error {
 	return errors.New("bad log signature")
 }
 
-//verif:stub github.com/transparency-dev/merkle/proof.VerifyConsistency files=witness.go
+//verif:stub github.com/transparency-dev/merkle/proof.VerifyConsistency files=*
 func c19VerifyConsistency(_ merkle.LogHasher, s1, s2 uint64, pf [][]byte, r1, r2 []byte) error {
 	c19ConsCalls++
 	c19Cons.s1, c19Cons.s2, c19Cons.pf, c19Cons.r1, c19Cons.r2 = s1, s2, pf, r1, r2
@@ -90,7 +90,7 @@ func c19VerifyConsistency(_ merkle.LogHasher, s1, s2 uint64, pf [][]byte, r1, r2
 	return errors.New("inconsistent")
 }
 
-//verif:stub github.com/google/certificate-transparency-go/tls.CreateSignature files=witness.go
+//verif:stub github.com/google/certificate-transparency-go/tls.CreateSignature files=*
 func c19CreateSignature(k crypto.PrivateKey, h tls.HashAlgorithm, data []byte) (tls.DigitallySigned, error) {
 	c19Signs++
 	c19SignKey, c19SignHash, c19SignData = k, h, data
